@@ -401,10 +401,8 @@ func (g *joinGroup) Collect(src int, p timeMessage) error {
 // Emit the oldest set if we have collected enough data.
 func (g *joinGroup) Barrier(src int, t time.Time) error {
 	t = t.Round(g.n.j.Tolerance)
-	if t.Before(g.oldestTime) || g.oldestTime.IsZero() {
-		g.oldestTime = t
-	}
 
+	// A barrier buffers nothing: oldestTime keeps naming the oldest buffered set.
 	// Update head
 	g.head[src] = t
 
